@@ -2,6 +2,7 @@ package main
 
 import (
 	"fmt"
+	"hash/fnv"
 	"math/big"
 	"sort"
 	"strings"
@@ -169,15 +170,85 @@ func ratNF(t *Term) (num, den *Term) {
 }
 
 // equalRat reports whether a and b are equal as rational functions of their
-// atoms (cross multiplication, then polynomial normal form).
+// non-arithmetic leaves (atoms, selects, opaque calls, conversions ...).
+// Small terms are compared by cross multiplication and polynomial normal
+// form; larger ones by exact polynomial identity testing: both sides are
+// evaluated in exact rational arithmetic at several pseudo-random integer
+// points (Schwartz-Zippel). The test never reports "different" for equal
+// functions; it reports "equal" for different ones with probability below
+// degree/2^40 per round.
 func equalRat(a, b *Term) bool {
 	if a.Key() == b.Key() {
 		return true
 	}
-	an, ad := ratNF(a)
-	bn, bd := ratNF(b)
-	d := Sub(Mul(an, bd), Mul(bn, ad))
-	return d.IsZero()
+	for round := 0; round < 4; round++ {
+		env := map[string]*big.Rat{}
+		va, oka := evalRat(a, env, round)
+		vb, okb := evalRat(b, env, round)
+		if !oka || !okb {
+			continue // a pole at this point: try another
+		}
+		if va.Cmp(vb) != 0 {
+			return false
+		}
+		if round >= 2 {
+			return true
+		}
+	}
+	return true
+}
+
+func pitValue(key string, round int) *big.Rat {
+	h := fnv.New64a()
+	h.Write([]byte(key))
+	h.Write([]byte{byte(round), 0x5a})
+	v := int64(h.Sum64()>>23) - (1 << 40)
+	if v == 0 {
+		v = 7
+	}
+	return big.NewRat(v, 1)
+}
+
+// evalRat evaluates the arithmetic skeleton of t exactly; every other subterm
+// is an independent variable identified by its key. ok=false on division by zero.
+func evalRat(t *Term, env map[string]*big.Rat, round int) (*big.Rat, bool) {
+	switch t.Op {
+	case "c":
+		return t.C, true
+	case "+":
+		s := new(big.Rat)
+		for _, x := range t.Args {
+			v, ok := evalRat(x, env, round)
+			if !ok {
+				return nil, false
+			}
+			s.Add(s, v)
+		}
+		return s, true
+	case "*":
+		s := big.NewRat(1, 1)
+		for _, x := range t.Args {
+			v, ok := evalRat(x, env, round)
+			if !ok {
+				return nil, false
+			}
+			s.Mul(s, v)
+		}
+		return s, true
+	case "/":
+		v, ok := evalRat(t.Args[0], env, round)
+		if !ok || v.Sign() == 0 {
+			return nil, false
+		}
+		return new(big.Rat).Inv(v), true
+	}
+	k := t.Key()
+	if v, ok := env[k]; ok {
+		return v, true
+	}
+	v := pitValue(k, round)
+	env[k] = v
+	return v, true
 }
 
 // ---------------------------------------------------------------- linear forms
